@@ -154,4 +154,89 @@ Proof.
   rewrite lines_text_write_ln by exact Hl. now rewrite ln_lines_written by (try exact Hl; right; reflexivity).
 Qed.
 
+
+(* ---- the whole Omen directory, guesser: load_rules on the files the writer model produces *)
+Lemma written_cp_lines (l : list (Z * str)) :
+  Forall level_item_ok l -> Forall (fun it => snd it <> []) l ->
+  exists d, cp_dict l = Some d /\ cp_lines IWS DZ (Some 10%Z) (lines_keep LB (write_levels l)) [] = inl d.
+Proof.
+  intros Hl Hne.
+  pose proof (cp_lines_is_cp_dict IWS DZ (Some 10%Z) (lines_keep LB (write_levels l))) as Hc.
+  rewrite level_lines_items, written_level_lines in Hc by (try exact Hl; right; reflexivity).
+  destruct (cp_lines IWS DZ (Some 10%Z) (lines_keep LB (write_levels l)) []) as [d|e].
+  - destruct Hc as (its & Hi & Hd). inversion Hi. subst its. now exists d.
+  - exfalso. unfold cp_dict in Hc. rewrite cp_dict_fold in Hc.
+    assert (G : forall d0, fold_left cp_fold_step l (Some d0) <> None).
+    { clear Hc Hl. induction Hne as [|it r Hit Hr IH]; intros d0; cbn [fold_left]; [discriminate|].
+      unfold cp_fold_step at 2. unfold cp_step. destruct (rev (snd it)) as [|c pre] eqn:Er.
+      - exfalso. apply Hit. rewrite <- (rev_involutive (snd it)), Er. reflexivity.
+      - unfold pstr, str in *. rewrite Er. cbv beta iota. apply IH. }
+    exact (G [] Hc).
+Qed.
+
+Theorem roundtrip_omen_directory_translated (dir : pstr) (c : C) (enc ntext : pstr) (n : Z)
+        (a : list str) (ip ep cp : list (Z * str)) (lv : list Z) :
+  let pj := w_path_join W in
+  cp_read (w_cfg W) (pj [dir; n_config_txt]) = XDone c ->
+  cp_get (w_cfg W) c k_training_settings k_encoding = XDone enc ->
+  cp_get (w_cfg W) c k_training_settings k_ngram = XDone ntext -> parse_int IWS DZ ntext = Some n ->
+  Forall (fun ch => safe ch = true) a -> Forall level_item_ok ip -> Forall level_item_ok ep -> Forall level_item_ok cp ->
+  Forall (fun it => snd it <> []) cp -> Forall (fun z => (0 <= z <= 10)%Z) lv ->
+  w_codecs_open W (pj [dir; n_alphabet_txt]) (Some enc) (Some k_strict) = XDone (lines_keep LB (write_alphabet a)) ->
+  w_codecs_open W (pj [dir; n_ip_level]) (Some enc) (Some k_strict) = XDone (lines_keep LB (write_levels ip)) ->
+  w_codecs_open W (pj [dir; n_ep_level]) (Some enc) (Some k_strict) = XDone (lines_keep LB (write_levels ep)) ->
+  w_codecs_open W (pj [dir; n_cp_level]) (Some enc) (Some k_strict) = XDone (lines_keep LB (write_levels cp)) ->
+  w_open W (pj [dir; n_ln_level]) None None = XDone (lines_text (TextFile.write_ln lv)) ->
+  exists d, cp_dict cp = Some d /\
+    py_omen_load_rules fo W (VStr dir) (VDict []) =
+    XDone (enc_omen_tables {| ot_encoding := enc; ot_ngram := n; ot_alphabet := a; ot_ip := ip_buckets ip;
+                              ot_ep := ep_dict ep; ot_cp := d; ot_ln := ln_guesser n lv |}, VBool true).
+Proof.
+  intros pj Hc He Hn Hp Ha Hip Hep Hcp Hne Hlv Oa Oip Oep Ocp Oln.
+  destruct (written_cp_lines cp Hcp Hne) as (d & Hd & Hcl). exists d. split; [exact Hd|].
+  pose proof (omen_load_rules_cases fo W IWS DZ Hpint dir) as Hm. unfold omen_guesser_load in Hm. fold pj in Hm.
+  rewrite Hc in Hm; cbn [of_xres sum_bind] in Hm. rewrite He in Hm; cbn [of_xres sum_bind] in Hm.
+  rewrite Hn in Hm; cbn [of_xres sum_bind] in Hm. rewrite Hp in Hm; cbn [sum_bind] in Hm.
+  rewrite Oa in Hm; cbn [of_xres sum_bind] in Hm. rewrite Oip in Hm; cbn [of_xres sum_bind] in Hm.
+  rewrite written_level_lines in Hm by (try assumption; right; reflexivity). cbn [sum_bind] in Hm.
+  rewrite Oep in Hm; cbn [of_xres sum_bind] in Hm.
+  rewrite written_level_lines in Hm by (try assumption; right; reflexivity). cbn [sum_bind] in Hm.
+  rewrite Ocp in Hm; cbn [of_xres sum_bind] in Hm. rewrite Hcl in Hm. cbn [sum_bind] in Hm.
+  rewrite Oln in Hm; cbn [of_xres sum_bind] in Hm.
+  rewrite lines_text_write_ln in Hm by exact Hlv.
+  rewrite ln_lines_written in Hm by (try exact Hlv; right; reflexivity). cbn [sum_bind] in Hm.
+  pose proof (roundtrip_alphabet_inst a Ha) as Hr. unfold load_alphabet in Hr. rewrite Hr in Hm. exact Hm.
+Qed.
+
+(* ---- ... and the scorer: OmenScorer(base, encoding, max) on the same files, opened with builtin open *)
+Lemma written_level_lines_text (l : list (Z * str)) :
+  Forall level_item_ok l -> level_lines IWS DZ None (lines_text (write_levels l)) = inl l.
+Proof.
+  intros H.
+  assert (H' : Forall (fun it => level_ok (fst it) /\ safe_key LB (snd it) = true) l)
+    by (eapply Forall_impl; [|exact H]; intros it [Hl Hs]; split; [exact Hl | exact Hs]).
+  rewrite (lines_text_write_levels LB LB_LF LB_CR LB_TAB digit_LB) by exact H'.
+  pose proof (level_items_written LB IWS DZ LB_LF LB_CR digit_DZ digit_IWS None l H' (or_introl eq_refl)) as Hi.
+  rewrite level_lines_items in Hi. destruct (level_lines IWS DZ None (map write_level_line l)); [now inversion Hi | discriminate].
+Qed.
+
+Theorem roundtrip_omen_scorer_translated (base enc : pstr) (vmax : val) (ip cp : list (Z * str)) (lv : list Z) :
+  let pj := w_path_join W in
+  Forall level_item_ok ip -> Forall level_item_ok cp -> Forall (fun z => (0 <= z <= 10)%Z) lv ->
+  w_open W (pj [base; n_omen; n_ip_level]) (Some enc) None = XDone (lines_text (write_levels ip)) ->
+  w_open W (pj [base; n_omen; n_cp_level]) (Some enc) None = XDone (lines_text (write_levels cp)) ->
+  w_open W (pj [base; n_omen; n_ln_level]) None None = XDone (lines_text (TextFile.write_ln lv)) ->
+  py_omen_scorer_init fo W (VObj []) (VStr base) (VStr enc) vmax =
+  XDone (enc_scorer (VStr enc) vmax
+           {| st_ip := ep_dict ip; st_cp := ep_dict cp; st_ln := lv;
+              st_ngram := match cp with it :: _ => Z.of_nat (length (snd it)) | [] => (-1)%Z end |}, VNone).
+Proof.
+  intros pj Hip Hcp Hlv Oip Ocp Oln.
+  rewrite (omen_scorer_init_eq fo W IWS DZ Hpint). unfold omen_scorer_load. fold pj.
+  rewrite Oip; cbn [of_xres sum_bind]. rewrite written_level_lines_text by assumption. cbn [sum_bind].
+  rewrite Ocp; cbn [of_xres sum_bind]. rewrite written_level_lines_text by assumption. cbn [sum_bind].
+  rewrite Oln; cbn [of_xres sum_bind]. rewrite lines_text_write_ln by exact Hlv.
+  rewrite ln_lines_written by (try exact Hlv; left; reflexivity). reflexivity.
+Qed.
+
 End RoundTrip.
